@@ -37,6 +37,7 @@ func (Prop) Level() string { return "exploration" }
 func (Prop) Rule() string {
 	return "history: a random sequence of 1-400 (up to 1200 for thresholds >= 64) operations {Set(new id), Set(existing id, new or same head), multi-element Set (new/existing/duplicate ids), RemoveId(existing), RemoveId(absent)} over a pool of 1-200 (up to 800) ids, part of them constructed to share 6-50 leading hash bits, under one of the profiles grow / churn / update-heavy / shrink-to-few, divide factors {2,3,4,5,7,8,16,32,64} x thresholds {1,2,3,4,8,16,64,256} incl. (32,256); afterwards compared with an index freshly filled with the final contents in one Set: Hash, Len, Elements, every canonical range down to depth 4 (as deep as stays within 400 ranges), the canonical path of every touched id until both sides stop answering with a hash, 10 random arbitrary ranges, each with and without Elements; and (equal contents) the wire-level in-sync check. " +
 		"dm: the same at the DiffManager level on a real any-store head storage and state storage: entries are created / updated / marked deleted through HeadStorage.UpdateEntry with the DiffManager subscribed as in headsync (incremental UpdateHeads), then a second DiffManager is filled from the same storage with FillDiff; only entries whose heads never contain the entry id are used (the two documented inclusion rules agree on them). " +
+		"kv: the key-value store's index (innerstorage on a real any-store database): 1-60 Set calls of 1-300 values over a pool of key-peer slots (winning, losing and repeated values; timestamps over the whole int64 range of the wire format, incl. values above 2^53 that the stored float64 cannot hold exactly), restarts in the middle (innerstorage.New on the same database, carrying on incrementally) and at the end (database closed and reopened); the live index, the rebuilt one and an index freshly filled from what IterateValues reads back must be indistinguishable (hash, range answers), the head-storage entry must be the index hash before and after the restart; " +
 		"A case is non-trivial when the history contains at least one Set of an existing id or one successful RemoveId; distinct = (workload, case index, parameters)."
 }
 func (Prop) Assumptions() []string {
@@ -53,11 +54,13 @@ func (Prop) Plan(tier string) []lib.Workload {
 		return []lib.Workload{
 			{Name: "history", Cases: 200000, MinNontrivial: 100000, BatchTimeout: 120 * time.Minute},
 			{Name: "dm", Cases: 4000, MinNontrivial: 2000, BatchTimeout: 120 * time.Minute},
+			{Name: "kv", Cases: 3000, MinNontrivial: 1500, BatchTimeout: 120 * time.Minute},
 		}
 	}
 	return []lib.Workload{
 		{Name: "history", Cases: 3000, MinNontrivial: 1500},
 		{Name: "dm", Cases: 160, MinNontrivial: 80},
+		{Name: "kv", Cases: 160, MinNontrivial: 80},
 	}
 }
 
@@ -825,6 +828,8 @@ func (Prop) RunCase(c *lib.Case) {
 		runHistory(c)
 	case "dm":
 		runDM(c)
+	case "kv":
+		runKV(c)
 	}
 }
 
